@@ -82,8 +82,10 @@ class _Helper:
         if a.vararg and self.expr is None:
             return False  # *args only for single-expression helpers (bound to a tuple of the extra arguments)
         for n in ast.walk(self.node):
-            if isinstance(n, (ast.Yield, ast.YieldFrom, ast.Global, ast.Nonlocal)):
+            if isinstance(n, (ast.Yield, ast.YieldFrom, ast.Nonlocal)):
                 return False
+            if isinstance(n, ast.Global) and n not in self.node.body:
+                return False  # only function-level `global` declarations (moved to the caller when inlined)
             if isinstance(n, ast.Lambda):
                 la = n.args
                 if self.expr is None or la.args or la.posonlyargs or la.kwonlyargs or la.vararg or la.kwarg:
@@ -226,6 +228,7 @@ class _Inliner(ast.NodeTransformer):
         self.count = 0
         self.used = set()
         self.counter = 0
+        self.globals_needed = set()
 
     # ---- matching ----------------------------------------------------------
     def _match(self, call):
@@ -329,6 +332,12 @@ class _Inliner(ast.NodeTransformer):
         need_value = kind in ("assign", "annassign", "return") or False
         ret = f"ret__{h.name.strip('_')}{self.counter}" if need_value else None
         body = copy.deepcopy(h.body)
+        for gs in [b for b in body if isinstance(b, ast.Global)]:
+            self.globals_needed.update(gs.names)
+        body = [b for b in body if not isinstance(b, ast.Global)]
+        for nm in list(rename):
+            if nm in self.globals_needed:
+                del rename[nm]  # module globals keep their name
         body = [_Subst(mapping, rename).visit(s) for s in body]
         body = _single_exit(body, ret)
         out = list(pre)
@@ -703,6 +712,69 @@ def apply_attribute_renames(tree, ren):
     return n
 
 
+def _module_dicts(tree):
+    """module-level NAME = {K: V, ...} displays whose keys are constants / dotted names, bound exactly once"""
+    out, count = {}, {}
+    for st in tree.body:
+        tg, val = None, None
+        if isinstance(st, ast.Assign) and len(st.targets) == 1 and isinstance(st.targets[0], ast.Name):
+            tg, val = st.targets[0].id, st.value
+        elif isinstance(st, ast.AnnAssign) and isinstance(st.target, ast.Name) and st.value is not None:
+            tg, val = st.target.id, st.value
+        if tg is None:
+            continue
+        count[tg] = count.get(tg, 0) + 1
+        if isinstance(val, ast.Dict) and val.keys and all(k is not None and _simple(k) for k in val.keys):
+            out[tg] = val
+    for n in ast.walk(tree):  # written anywhere else (D[k] = v, D.update, del) -> not a constant table
+        if isinstance(n, ast.Subscript) and isinstance(n.ctx, (ast.Store, ast.Del)) and isinstance(n.value, ast.Name):
+            out.pop(n.value.id, None)
+        if isinstance(n, ast.Call) and isinstance(n.func, ast.Attribute) and isinstance(n.func.value, ast.Name) \
+                and n.func.attr in ("update", "pop", "setdefault", "clear", "popitem"):
+            out.pop(n.func.value.id, None)
+    return {k: v for k, v in out.items() if count.get(k) == 1}
+
+
+def _lower_dict_dispatch(stmts, dicts):
+    """`if X in D: ... D[X] ...` over a constant module-level table D  ->  `if X == K1: ... V1 ... elif X == K2: ...`
+    (what the ladder looked like before somebody tabulated it; rules read ladders)"""
+    out = []
+    for s in stmts:
+        for fld in ("body", "orelse", "finalbody"):
+            b = getattr(s, fld, None)
+            if isinstance(b, list) and b and isinstance(b[0], ast.stmt) and not isinstance(s, (ast.FunctionDef, ast.AsyncFunctionDef, ast.ClassDef)):
+                setattr(s, fld, _lower_dict_dispatch(b, dicts))
+        if isinstance(s, ast.Try):
+            for h in s.handlers:
+                h.body = _lower_dict_dispatch(h.body, dicts)
+        t = s.test if isinstance(s, ast.If) else None
+        if isinstance(t, ast.Compare) and len(t.ops) == 1 and isinstance(t.ops[0], ast.In) and isinstance(t.comparators[0], ast.Name) \
+                and t.comparators[0].id in dicts and _simple(t.left):
+            D = dicts[t.comparators[0].id]
+            dname, xtext = t.comparators[0].id, ast.unparse(t.left)
+
+            class R(ast.NodeTransformer):
+                def __init__(self, val):
+                    self.val = val
+
+                def visit_Subscript(self, node):
+                    self.generic_visit(node)
+                    if isinstance(node.value, ast.Name) and node.value.id == dname and isinstance(node.ctx, ast.Load) and ast.unparse(node.slice) == xtext:
+                        return copy.deepcopy(self.val)
+                    return node
+
+            chain = None
+            for k, v in reversed(list(zip(D.keys, D.values))):
+                body = [R(v).visit(copy.deepcopy(b)) for b in s.body]
+                test = ast.Compare(left=copy.deepcopy(t.left), ops=[ast.Eq()], comparators=[copy.deepcopy(k)])
+                node = ast.copy_location(ast.If(test=test, body=body, orelse=[chain] if chain is not None else list(s.orelse)), s)
+                chain = node
+            out.append(chain)
+        else:
+            out.append(s)
+    return out
+
+
 def normalize_module(tree: ast.Module):
     """In-place normalisation of a parsed module; returns (number of inlined call
     sites, set of helper qualnames that were inlined)."""
@@ -716,6 +788,12 @@ def normalize_module(tree: ast.Module):
         for _ in range(3):
             inl = _Inliner(helpers, owner, fn.name)
             fn.body = inl._block(fn.body)
+            if inl.globals_needed:
+                have = {nm for st in fn.body if isinstance(st, ast.Global) for nm in st.names}
+                need = sorted(inl.globals_needed - have)
+                if need:
+                    at = 1 if fn.body and isinstance(fn.body[0], ast.Expr) and isinstance(fn.body[0].value, ast.Constant) else 0
+                    fn.body.insert(at, ast.Global(names=need))
             total += inl.count
             for u in inl.used:
                 used_all.add(f"{owner}.{u}" if owner and helpers[u].kind != "function" else u)
@@ -741,7 +819,10 @@ def normalize_module(tree: ast.Module):
     for n in tree.body:
         if isinstance(n, ast.ClassDef):
             do_class(n, mod_helpers)
+    dicts = _module_dicts(tree)
     for n in ast.walk(tree):
         if isinstance(n, (ast.FunctionDef, ast.AsyncFunctionDef)):
+            if dicts:
+                n.body = _lower_dict_dispatch(n.body, dicts)
             canonicalize_function(n)
     return total, used_all
